@@ -111,7 +111,65 @@ def translate_ptr_branch(repo):
             pos = end + 2
         branch = "PSwitch [ %s ]" % (";\n            ".join(cases))
     headtext = open(GEN + ".snapshot").read().split("Definition ptr_branch")[0]
-    return headtext + "Definition ptr_branch : pbranch :=\n  %s.\n" % branch
+    return (headtext + "Definition ptr_branch : pbranch :=\n  %s.\n" % branch +
+            "\n(* cdata_hash: the arms tried, in source order, before `return _Py_HashPointer(c_data)` *)\n"
+            "Definition hash_prog : list harm :=\n  [ %s ].\n" % "; ".join(translate_hash(text)))
+
+
+# cdata_hash, whole body, token for token (after comment stripping; `ct` expanded; the 3.13 #else arm dropped)
+_V_TYPE = "( ( CDataObject * ) v ) -> c_type"
+_V_DATA = "( ( CDataObject * ) v ) -> c_data"
+HASH_BASE = ("if ( %(t)s -> ct_flags & CT_PRIMITIVE_ANY ) { PyObject * vv = convert_to_object ( %(d)s , %(t)s ) ; "
+             "if ( vv == NULL ) return - 1 ; "
+             "if ( ! CData_Check ( vv ) ) { Py_hash_t hash = PyObject_Hash ( vv ) ; Py_DECREF ( vv ) ; return hash ; } "
+             "Py_DECREF ( vv ) ; } return _Py_HashPointer ( %(d)s ) ;" % dict(t=_V_TYPE, d=_V_DATA))
+# the one shortcut shape the language can express (HNonnegSelf), sitting inside the CT_PRIMITIVE_ANY block
+_SF = "( CT_PRIMITIVE_SIGNED | CT_PRIMITIVE_FITS_LONG )"
+HASH_NONNEG = ("if ( ( %(t)s -> ct_flags & %(sf)s ) == %(sf)s ) { long value ; "
+               "value = ( long ) read_raw_signed_data ( %(d)s , %(t)s -> ct_size ) ; "
+               "if ( value >= 0 ) return ( Py_hash_t ) value ; }" % dict(t=_V_TYPE, d=_V_DATA, sf=_SF))
+
+
+def translate_hash(text):
+    """text: _cffi_backend.c without comments -> list of arm constructors (fail closed)"""
+    from props import c29
+    try:
+        body = c29._function_body(text, "static Py_hash_t cdata_hash(PyObject *v)")
+    except Untranslatable as e:
+        raise Untranslatable("cdata_hash: " + str(e))
+    lines = [l for l in body.split("\n") if l.strip()]
+    pp = [l.strip() for l in lines if l.strip().startswith("#")]
+    if pp:
+        # exactly: #if PY_VERSION_HEX < 0x030D0000 / return _Py_HashPointer(..) / #else / return Py_HashPointer(..) / #endif
+        if pp != ["#if PY_VERSION_HEX < 0x030D0000", "#else", "#endif"]:
+            raise Untranslatable("cdata_hash: unexpected preprocessor lines %r" % pp)
+        k0 = [i for i, l in enumerate(lines) if l.strip() == "#if PY_VERSION_HEX < 0x030D0000"][0]
+        tail = [" ".join(l.split()) for l in lines[k0:]]
+        if tail != ["#if PY_VERSION_HEX < 0x030D0000", "return _Py_HashPointer(((CDataObject *)v)->c_data);", "#else",
+                    "return Py_HashPointer(((CDataObject *)v)->c_data);", "#endif"]:
+            raise Untranslatable("cdata_hash: the final return is not _Py_HashPointer(c_data) / Py_HashPointer(c_data)")
+        lines = lines[:k0] + [lines[k0 + 1]]
+    try:
+        t = " ".join(c29._tokens("\n".join(lines)))
+    except Untranslatable as e:
+        raise Untranslatable("cdata_hash: " + str(e))
+    # local alias  CTypeDescrObject *ct = ((CDataObject *)v)->c_type;
+    decl = "CTypeDescrObject * ct = %s ;" % _V_TYPE
+    if t.count(decl) == 1:
+        t = " ".join(_V_TYPE if x == "ct" else x for x in t.replace(decl, "").split())
+    # `PyObject *vv; ... vv = convert_to_object(` -> declaration with initialiser
+    if t.count("PyObject * vv ;") == 1 and t.count("; vv = convert_to_object (") + t.count("} vv = convert_to_object (") == 1:
+        t = " ".join(t.replace("PyObject * vv ;", "").split())
+        t = t.replace(" vv = convert_to_object (", " PyObject * vv = convert_to_object (")
+    arms = []
+    if t.count(HASH_NONNEG) == 1 and t.index(HASH_NONNEG) > t.index("CT_PRIMITIVE_ANY ) {") \
+            and t.index(HASH_NONNEG) < t.index("PyObject * vv = convert_to_object"):
+        arms.append("HNonnegSelf")
+        t = " ".join(t.replace(HASH_NONNEG, "").split())
+    if t != HASH_BASE:
+        raise Untranslatable("cdata_hash: body outside the translated shapes (conversion arm, optional "
+                             "non-negative-self shortcut, final _Py_HashPointer)")
+    return arms + ["HConvert"]
 
 
 def regen(ctx):
